@@ -15,7 +15,17 @@ orientation), and a sample of the states -- as many as the tier's budget
 allows -- is rebuilt as an in-memory workbook whose formula cells
 (=MATCH(K1,$A$1:$A$5,0), =VLOOKUP(..), =HLOOKUP(..), =LOOKUP(..), =INDEX(..))
 are evaluated by a real ExcelCompiler.  The result must be a member of the
-allowed set; an exception is always a discrepancy.
+allowed set; an exception is always a discrepancy.  Vectors of one cell and
+the 1 x 1 table (table modes of width 1) are ranges like any other there:
+$A$1:$A$1.
+
+Known finding C16_r3_1 (DEV_LookupOneCellScalar): a range of one cell reaches
+a worksheet function as the value of the cell, and VLOOKUP / HLOOKUP / LOOKUP
+/ INDEX answer a table that is not a table with #N/A / #VALUE! (pinned by
+tests/lib/test_lookup.py).  A discrepancy is attributed to it only when the
+formula hands a one-cell range to the function as its table or vector AND the
+value observed is exactly the one the scalar guard of that function gives
+(one_cell_answer); everything else stays a violation.
 
 Abstract values are made concrete here: ["N",k] -> k or float(k), ["S",cs] ->
 a string through a character table (the abstract "." becomes one of a list
@@ -35,6 +45,7 @@ from harness import tlc, xl
 from harness.evidence import Verdict
 
 PID = 'C16'
+FINDING_ONE_CELL = 'C16_r3_1'
 TYPES = (-1, 0, 1)
 NA, FREE, SELF = 0, -1, -2
 
@@ -154,6 +165,8 @@ class Out:
     def __init__(self):
         self.evals = 0
         self.viols = []
+        self.knowns = []     # discrepancies the one-cell finding explains
+        self.nknown = 0
         self.formulas = 0
         self.workbooks = 0
         self.skipped = {}
@@ -166,6 +179,12 @@ class Out:
         else:
             self.skipped['violations beyond 200 per worker'] = \
                 self.skipped.get('violations beyond 200 per worker', 0) + 1
+
+    def known(self, desc, case):
+        self.nknown += 1
+        kind = desc.split(':')[0]      # a few examples of every kind
+        if sum(1 for d, _ in self.knowns if d.split(':')[0] == kind) < 3:
+            self.knowns.append((desc, case))
 
     def skip(self, why, n=1):
         self.skipped[why] = self.skipped.get(why, 0) + n
@@ -317,9 +336,23 @@ def arg_for(i, v_c, rnd, cells):
     return f'K{i + 1}'
 
 
+def one_cell_answer(fn, cell):
+    """DEV_LookupOneCellScalar: what fn gives when its table / vector is a
+    range of one cell -- it receives the VALUE of the cell (a scalar) and its
+    guard for "not a table" answers: #N/A from VLOOKUP / HLOOKUP / LOOKUP;
+    INDEX hands an error value on and gives #VALUE! for anything else."""
+    from pycel.excelutil import ERROR_CODES
+    if fn == 'INDEX':
+        return cell if isinstance(cell, str) and cell in ERROR_CODES \
+            else '#VALUE!'
+    return '#N/A'
+
+
 def run_formulas(cells, checks, out, what):
-    """checks: list of (address, formula, predicate(got) -> bool, describe)."""
-    for addr, formula, _, _ in checks:
+    """checks: list of (address, formula, predicate(got) -> bool, describe,
+    one_cell); one_cell is None, or (function, value of the cell) when the
+    formula hands a range of one cell to that function as its table/vector."""
+    for addr, formula, *_ in checks:
         cells[addr] = formula
     try:
         model = xl.compile_wb(cells)
@@ -328,7 +361,7 @@ def run_formulas(cells, checks, out, what):
                 dict(fn='compile', cells=cells))
         return
     out.workbooks += 1
-    for addr, formula, pred, describe in checks:
+    for addr, formula, pred, describe, one_cell in checks:
         try:
             got = model.evaluate('S!' + addr)
         except Exception as exc:   # noqa
@@ -341,7 +374,11 @@ def run_formulas(cells, checks, out, what):
                         cells={k: v for k, v in cells.items()
                                if not (isinstance(v, str) and v.startswith('=')
                                        and k != addr)})
-            out.bad(desc, case)
+            if one_cell is not None and isinstance(got, str) \
+                    and got == one_cell_answer(*one_cell):
+                out.known(desc, case)
+            else:
+                out.bad(desc, case)
 
 
 def _short(got):
@@ -385,27 +422,27 @@ def formula_vector(vec, look, conc, rnd, out):
                                  allowed=allowed))
                 checks.append((addr, formula,
                                lambda got, allowed=allowed, v_c=v_c:
-                               pos_ok(got, allowed, v_c), describe))
-    # INDEX(range, i); a one-cell range reaches INDEX as a scalar (see report)
-    if n >= 2:
-        for k, allowed in enumerate(vec['ix']):
-            i = -1 if k == n + 1 else k + 1
-            for fi, formula in enumerate((f'=INDEX({crange},{i})',
-                                          f'=INDEX({rrange},{i})',
-                                          f'=INDEX({crange},{i},1)',
-                                          f'=INDEX({rrange},1,{i})')):
-                addr = f'{"STUV"[fi]}{k + 1}'
+                               pos_ok(got, allowed, v_c), describe, None))
+    # INDEX(range, i); the vector of one cell is the range $A$1:$A$1
+    one_cell = ('INDEX', a_c[0]) if n == 1 else None
+    for k, allowed in enumerate(vec['ix']):
+        i = -1 if k == n + 1 else k + 1
+        for fi, formula in enumerate((f'=INDEX({crange},{i})',
+                                      f'=INDEX({rrange},{i})',
+                                      f'=INDEX({crange},{i},1)',
+                                      f'=INDEX({rrange},1,{i})')):
+            addr = f'{"STUV"[fi]}{k + 1}'
 
-                def describe(got, allowed=allowed, i=i):
-                    return (f'INDEX on a vector (formula): index {i} of {n}: got '
-                            f'{_short(got)}, allowed {[conc(x) for x in allowed]}',
-                            dict(fn='formula-index1', a=a_c, i=i,
-                                 allowed=[conc(x) for x in allowed]))
-                checks.append((addr, formula,
-                               lambda got, allowed=allowed: cell_ok(got, allowed, conc),
-                               describe))
-    else:
-        out.skip('INDEX(one-cell range) formulas', 4 * len(vec['ix']))
+            def describe(got, allowed=allowed, i=i):
+                return (f'INDEX on a vector (formula)'
+                        f'{" [one-cell range]" if n == 1 else ""}: index {i} '
+                        f'of {n}: got {_short(got)}, allowed '
+                        f'{[conc(x) for x in allowed]}',
+                        dict(fn='formula-index1', a=a_c, i=i,
+                             allowed=[conc(x) for x in allowed]))
+            checks.append((addr, formula,
+                           lambda got, allowed=allowed: cell_ok(got, allowed, conc),
+                           describe, one_cell))
     run_formulas(cells, checks, out, 'vector workbook')
 
 
@@ -425,13 +462,20 @@ def formula_table(vec, look, conc, rnd, out):
     def cc(allowed):
         return [('anything' if x[0] == '?' else conc(x)) for x in allowed]
 
-    def add(addr, formula, allowed, name, v_c):
+    # the ranges of one cell: the 1 x 1 table, and with one row of any width
+    # the two vectors of LOOKUP's vector form
+    tbl_1x1 = n == 1 and w == 1
+    vec_1 = n == 1
+
+    def add(addr, formula, allowed, name, v_c, one_cell=None):
         def describe(got):
-            return (f'{name} (formula) [{classify(a_c, v_c, "formula")}]: '
+            hint = 'one-cell range' if one_cell else classify(a_c, v_c, "formula")
+            return (f'{name} (formula) [{hint}]: '
                     f'{formula}: got {_short(got)}, allowed {cc(allowed)}',
                     dict(fn='formula-' + name, v=v_c, table=T, allowed=cc(allowed)))
         checks.append((addr, formula,
-                       lambda got: cell_ok(got, allowed, conc), describe))
+                       lambda got: cell_ok(got, allowed, conc), describe,
+                       one_cell))
 
     row = 0
     for i, lv in enumerate(look):
@@ -447,22 +491,23 @@ def formula_table(vec, look, conc, rnd, out):
                     ap = rnd.choice(['TRUE', '1'] if approx else ['FALSE', '0'])
                     ap = '' if (approx and rnd.random() < 0.3) else ',' + ap
                     row += 1
-                    add(f'M{row}', f'={fn}({arg},{rng},{ri}{ap})', allowed, fn, v_c)
+                    add(f'M{row}', f'={fn}({arg},{rng},{ri}{ap})', allowed, fn, v_c,
+                        (fn, T[0][0]) if tbl_1x1 else None)
         arg = arg_for(i, v_c, rnd, cells)
-        if n >= 2:
-            row += 1
-            add(f'M{row}', f'=LOOKUP({arg},A1:A{n},{COLS[w - 1]}1:{COLS[w - 1]}{n})',
-                vec['lv'][i], 'LOOKUP vector form', v_c)
-            row += 1
-            add(f'M{row}', f'=LOOKUP({arg},A20:{COLS[n - 1]}20,'
-                           f'A{19 + w}:{COLS[n - 1]}{19 + w})',
-                vec['lv'][i], 'LOOKUP vector form (rows)', v_c)
-        else:
-            out.skip('LOOKUP(one-cell range) formulas', 2)
+        row += 1
+        add(f'M{row}', f'=LOOKUP({arg},A1:A{n},{COLS[w - 1]}1:{COLS[w - 1]}{n})',
+            vec['lv'][i], 'LOOKUP vector form', v_c,
+            ('LOOKUP', T[0][0]) if vec_1 else None)
+        row += 1
+        add(f'M{row}', f'=LOOKUP({arg},A20:{COLS[n - 1]}20,'
+                       f'A{19 + w}:{COLS[n - 1]}{19 + w})',
+            vec['lv'][i], 'LOOKUP vector form (rows)', v_c,
+            ('LOOKUP', T[0][0]) if vec_1 else None)
         if n >= w:
             row += 1
             add(f'M{row}', f'=LOOKUP({arg},{trange})', vec['la'][i],
-                'LOOKUP array form', v_c)
+                'LOOKUP array form', v_c,
+                ('LOOKUP', T[0][0]) if tbl_1x1 else None)
         if n > w:
             row += 1
             add(f'M{row}', f'=LOOKUP({arg},{ttrange})', vec['lt'][i],
@@ -472,10 +517,12 @@ def formula_table(vec, look, conc, rnd, out):
         for ck, allowed in enumerate(rowset):
             c = -1 if ck == w + 1 else ck + 1
             row += 1
-            add(f'M{row}', f'=INDEX({trange},{r},{c})', allowed, 'INDEX', None)
+            add(f'M{row}', f'=INDEX({trange},{r},{c})', allowed, 'INDEX', None,
+                ('INDEX', T[0][0]) if tbl_1x1 else None)
             row += 1
             add(f'M{row}', f'=INDEX({ttrange},{c},{r})', allowed,
-                'INDEX (transposed)', None)
+                'INDEX (transposed)', None,
+                ('INDEX', T[0][0]) if tbl_1x1 else None)
     run_formulas(cells, checks, out, 'table workbook')
 
 
@@ -530,6 +577,9 @@ def execute(v, vectors, looks, seed, fprob, totals, free_share=1.0):
                 totals['skipped'][k] = totals['skipped'].get(k, 0) + c
             for desc, case in out.viols:
                 v.violation(desc, case)
+            totals['known'] += out.nknown
+            for desc, case in out.knowns:
+                v.known_finding(FINDING_ONE_CELL, desc, case)
     v.traces += len(vectors)
     totals['exec_s'] = round(totals.get('exec_s', 0) + time.time() - t0, 1)
 
@@ -643,8 +693,10 @@ def dedup(vectors):
 
 
 # ------------------------------------------------------------------ run ---
-QUICK_FPROB = {'*': 0.003, ('vec', 1): 0.25, ('vec', 2): 0.04, ('vec', 3): 0.006,
-               ('tbl', 1): 0.4, ('tbl', 2): 0.06, ('tbl', 3): 0.015, ('tbl', 4): 0.006}
+# every vector / table of ONE row goes through a workbook in both tiers: the
+# ranges of one cell only exist there
+QUICK_FPROB = {'*': 0.003, ('vec', 1): 1.0, ('vec', 2): 0.04, ('vec', 3): 0.006,
+               ('tbl', 1): 1.0, ('tbl', 2): 0.06, ('tbl', 3): 0.015, ('tbl', 4): 0.006}
 THOROUGH_FPROB = {'*': 0.008, ('vec', 1): 1.0, ('vec', 2): 0.3, ('vec', 3): 0.05,
                   ('vec', 4): 0.015, ('tbl', 1): 1.0, ('tbl', 2): 0.3,
                   ('tbl', 3): 0.1, ('tbl', 4): 0.03, ('tbl', 5): 0.012,
@@ -654,19 +706,19 @@ BIG = [('wide<=4', 'BigModes[1]', 0), ('four values<=6', 'BigModes[2]', 0),
        ('neutral<=5', 'BigModes[3]', 0), ('one per type<=8', 'BigModes[4]', 0),
        ('sorted<=6', 'BigModes[5]', 0), ('sorted<=8', 'BigModes[6]', 0),
        ('table 4x2', 'BigModes[7]', 1), ('table 5x3', 'BigModes[8]', 1),
-       ('table 6x4', 'BigModes[9]', 1)]
+       ('table 6x4', 'BigModes[9]', 1), ('tables 1x1..6x1', 'BigModes[10]', 1)]
 
 
 def run(tier, seed):
     v = Verdict(PID, tier, seed)
     d = tlc.new_scratch('lookup')
-    totals = dict(keys=0, formulas=0, workbooks=0, free=0, skipped={})
+    totals = dict(keys=0, formulas=0, workbooks=0, free=0, known=0, skipped={})
     coverage_all = {}
     looks = {}
     nvec = 0
     if tier == 'quick':
         vectors, cov = model_run(d, 'MC_LookupQ', 'QuickModes', 'Lookup_mc', v)
-        collect(vectors, 'q', looks, 2, v.states, 'Lookup_mc')
+        collect(vectors, 'q', looks, 3, v.states, 'Lookup_mc')
         coverage_all['Lookup_mc'] = cov
         for vec in vectors[:3]:
             v.sample({k: vec[k] for k in ('kind', 'a', 'asc', 'desc') if k in vec})
@@ -721,16 +773,18 @@ def run(tier, seed):
         formulas_evaluated=totals['formulas'],
         workbooks_compiled=totals['workbooks'],
         unconstrained_match_cases=totals['free'],
+        one_cell_range_discrepancies=totals['known'],
         skipped=totals['skipped'],
         seconds_executing_on_code=totals.get('exec_s'),
         bounds=('quick: all vectors <= 3 (12-value pool) / <= 4 (7-value pools), '
-                'all sorted vectors <= 5, tables <= 4x3; x 24 lookup values x '
+                'all sorted vectors <= 5, tables 1x1 .. 4x3; x 24 lookup values x '
                 'match types {-1,0,1} x result indices -1..w+1'
                 if tier == 'quick' else
                 'thorough: all vectors <= 4 (10-value pool) / 6 (4 values) / 5 '
                 '(neutral values) / 8 (one value per type), all sorted vectors '
                 '<= 6 (9 values) / <= 8 (6 values), tables 4x2, 5x3, 6x4 '
-                'exhaustive (4 keys); simulation: 12-value pool to length 8, '
+                'exhaustive (4 keys), 1x1 .. 6x1 (5 keys); simulation: '
+                '12-value pool to length 8, '
                 'tables 6x4'),
         rule='one case = (function, concrete arguments); result must be a '
              'member of the allowed set exported by TLC; every vector through '
